@@ -84,6 +84,7 @@ var c06PageURLs = []string{
 }
 
 func c06Enumerate(tier string, emit func(*eng.Case)) {
+	own := withDecor(decorEvery(tier), emit)
 	maxK := 2
 	if tier == "thorough" {
 		maxK = 3
@@ -102,7 +103,7 @@ func c06Enumerate(tier string, emit func(*eng.Case)) {
 				}
 			}
 			_ = ui
-			emit(&eng.Case{Kind: "urls", HTML: c06Doc(assign), URL: pu, P: map[string]string{"doc": strings.Join(d, ", ")}})
+			own(&eng.Case{Kind: "urls", HTML: c06Doc(assign), URL: pu, P: map[string]string{"doc": strings.Join(d, ", ")}})
 		}
 		if k == maxK {
 			return
@@ -319,7 +320,7 @@ func init() {
 			if tier == "thorough" {
 				k = 3
 			}
-			return map[string]any{"positions": len(c06Positions), "forms": len(c06Forms), "max_non_default": k, "page_urls": len(c06PageURLs), "cross": crossBounds(tier)}
+			return map[string]any{"decorated_variants": decorBound(tier), "positions": len(c06Positions), "forms": len(c06Forms), "max_non_default": k, "page_urls": len(c06PageURLs), "cross": crossBounds(tier)}
 		},
 	})
 }
